@@ -510,6 +510,22 @@ pub fn run_c18(ctx: &Ctx) {
             jtot[i].fetch_add(st[i], Ordering::Relaxed);
         }
     });
+    // JSON side on 4-node trees rooted at an enum / struct / tuple (near-miss arities and field sets need them)
+    let en4 = SchemaEnum::new(4, 3);
+    let comp4: Vec<&St> = en4.exact(4).iter().filter(|t| matches!(t, St::Enum(..) | St::Struct(..) | St::Tuple(..))).collect();
+    comp4.par_iter().enumerate().for_each(|(ti, t)| {
+        let schema = to_owned(t);
+        let mut st = [0u64; 3];
+        for (ji, j) in json_grammar(t).iter().enumerate() {
+            if j.is_array() || j.is_object() || j.is_string() {
+                c18_json_case(ctx, t, &schema, j, (2u64 << 50) | (ti as u64) << 24 | ji as u64, &mut st);
+            }
+        }
+        for i in 0..3 {
+            jtot[i].fetch_add(st[i], Ordering::Relaxed);
+        }
+    });
+    ctx.ev.lock().unwrap().bound("json_side_4_node_composite_trees", json!(comp4.len()));
     // predicted-dangerous inputs (a claimed count of zero-width elements beyond 4096) are executed
     // in isolated subprocesses: a handful of representatives
     let reps: Vec<(St, Vec<u8>)> = vec![
